@@ -1,4 +1,6 @@
 import Pyunicorn.Lemmas.CrossNsiWhole
+import Pyunicorn.Lemmas.CrossR4
+import Pyunicorn.Lemmas.CrossBetw
 import Mathlib.Algebra.Order.BigOperators.Group.List
 import Pyunicorn.Generated.ArithC11
 import Pyunicorn.Generated.StructC11
@@ -1740,5 +1742,786 @@ theorem adjacency_values_fit_int8 (A : Adj) (a b : Nat) :
   constructor
   · unfold b2n; split <;> split <;> omega
   · decide
+
+/-! ## Round 4 -/
+
+section Betweenness
+open Pyunicorn.NetBetw
+
+/-! ### the betweenness delegates (`cross_betweenness`, `internal_betweenness`,
+`nsi_cross_betweenness`) through C03's model of the kernel `_nsi_betweenness` -/
+
+/-- **the source mask is the membership mask of `node_list1`**: `is_source[sources] = 1` (one store
+per listed node) leaves `is_source[v] = 1` exactly for the listed nodes — order and repetitions of
+the list are irrelevant. -/
+theorem srcMask_is_membership (n : Nat) (L : List Nat) :
+    srcMask n L = (List.range n).map fun v => decide (v ∈ L) := srcMask_eq n L
+
+example : srcMask 4 [2, 0, 2] = [true, false, true, false] := by decide
+
+/-- **the betweenness of the groups is a sum over the target list** (the kernel's loop
+`for j in targets` with `betweenness_times_w += …`, then the wrapper's division by `w`):
+entry `v` is `(1/w_v) Σ_{t ∈ L2} w_t · (sweep result of target t at v)` -/
+theorem nsiCrossBetweenness_sum_over_targets (n : Nat) (A : Adj) (w : Nat → Rat)
+    (L1 L2 : List Nat) :
+    nsiCrossBetweenness n A w L1 L2 = (List.range n).map fun v =>
+      (L2.map fun t => w t * sweepDiff n A w (srcMask n L1) t v).sum / w v :=
+  nsiBetweenness_entry n A w (srcMask n L1) L2
+
+/-- **order independence in both groups**: `nsi_cross_betweenness` (and, with unit weights,
+`cross_betweenness`) returns the same vector for every ordering of `node_list1` and of
+`node_list2`, on every network. -/
+theorem nsiCrossBetweenness_perm (n : Nat) (A : Adj) (w : Nat → Rat) {L1 L1' L2 L2' : List Nat}
+    (h1 : L1.Perm L1') (h2 : L2.Perm L2') :
+    nsiCrossBetweenness n A w L1 L2 = nsiCrossBetweenness n A w L1' L2' := by
+  rw [nsiCrossBetweenness_sum_over_targets, nsiCrossBetweenness_sum_over_targets,
+    srcMask_perm n h1]
+  apply List.map_congr_left
+  intro v _
+  rw [(h2.map fun t => w t * sweepDiff n A w (srcMask n L1') t v).sum_eq]
+
+theorem crossBetweenness_perm (n : Nat) (A : Adj) {L1 L1' L2 L2' : List Nat}
+    (h1 : L1.Perm L1') (h2 : L2.Perm L2') :
+    crossBetweenness n A L1 L2 = crossBetweenness n A L1' L2' :=
+  nsiCrossBetweenness_perm n A (fun _ => 1) h1 h2
+
+/-- **additivity in the target group**: the betweenness with respect to `(L1, L2 ++ L2')` is the
+entry-wise sum of those with respect to `(L1, L2)` and `(L1, L2')` — for every network, weight
+vector and source group. -/
+theorem nsiCrossBetweenness_targets_append (n : Nat) (A : Adj) (w : Nat → Rat)
+    (L1 L2 L2' : List Nat) :
+    nsiCrossBetweenness n A w L1 (L2 ++ L2')
+      = List.zipWith (· + ·) (nsiCrossBetweenness n A w L1 L2) (nsiCrossBetweenness n A w L1 L2') := by
+  simp only [nsiCrossBetweenness_sum_over_targets]
+  rw [zipWith_map_self]
+  apply List.map_congr_left
+  intro v _
+  rw [List.map_append, List.sum_append, add_div]
+
+/-- **whole-network limit of the betweenness delegates**: with `L` any ordering of all nodes,
+`cross_betweenness(L, L) = internal_betweenness(L) = Network.interregional_betweenness()` (its
+defaults: every node a source, `targets = arange(N)`) and
+`nsi_cross_betweenness(L, L) = Network.nsi_betweenness()`. -/
+theorem whole_nsi_betweenness (n : Nat) (A : Adj) (w : Nat → Rat) (L : List Nat)
+    (h : L.Perm (List.range n)) :
+    nsiCrossBetweenness n A w L L = netNsiBetweenness n A w :=
+  nsiCrossBetweenness_perm n A w h h
+
+theorem whole_betweenness (n : Nat) (A : Adj) (L : List Nat) (h : L.Perm (List.range n)) :
+    crossBetweenness n A L L = netInterregionalBetweenness n A
+      ∧ internalBetweenness n A L = netInterregionalBetweenness n A :=
+  ⟨crossBetweenness_perm n A h h, crossBetweenness_perm n A h h⟩
+
+/-- `nsi_betweenness(…, nsi=False)` replaces the weights by `np.ones_like(w)`: with unit node
+weights the n.s.i. measure *is* the unweighted one -/
+theorem nsiCrossBetweenness_unit_weights (n : Nat) (A : Adj) (L1 L2 : List Nat) :
+    nsiCrossBetweenness n A (fun _ => 1) L1 L2 = crossBetweenness n A L1 L2 := rfl
+
+/-- the default mask `is_source[range(0, N)] = 1` marks every node -/
+theorem srcMaskAll_all (n : Nat) : srcMaskAll n = List.replicate n true := srcMaskAll_eq n
+
+/-- **partial.**  Full statement: for every undirected loop-free network, positive node weights and
+node lists, `nsi_cross_betweenness(L1, L2)[v] = (1/w_v) Σ_{t ∈ L2} Σ_{s ∈ L1, s ≠ v ≠ t}
+w_t w_s σ_ts(v)/σ_ts` (`σ` = weighted number of shortest paths; unit weights: `cross_betweenness`
+= number of shortest paths between the groups through `v`, as fractions of all shortest paths of
+the pair), i.e. `nsiCrossBetweenness n A w L1 L2 = crossBetweennessDef n A w L1 L2`.
+Proved here for every network, weight vector and pair of lists: the delegation chain (mask,
+weights, target order), the loop over the targets and the final division turn per-target sweep
+results that equal the definition's inner sum into the published double sum.  Missing: the
+hypothesis `h` itself (the kernel's forward and backward sweeps for one target compute
+`contribDef`) — C03's open item (`nsiBetweenness_eq_def_partial`); both sides are evaluated in exact
+rational arithmetic by the driver on every case of the run (`cross_betweenness` /
+`cross_betweenness_def` must coincide) and compared with the implementation. -/
+theorem nsiCrossBetweenness_eq_def_partial (n : Nat) (A : Adj) (w : Nat → Rat) (L1 L2 : List Nat)
+    (h : ∀ t, t ∈ L2 → ∀ v, v < n →
+      sweepDiff n A w (srcMask n L1) t v
+        = contribDef n A w (Pyunicorn.Net.dist n A) (srcMask n L1) t v) :
+    nsiCrossBetweenness n A w L1 L2 = crossBetweennessDef n A w L1 L2 :=
+  nsiBetweenness_assembly n A w (srcMask n L1) L2 (Pyunicorn.Net.dist n A) h
+
+/-- the definition's source set is `node_list1`: `excess_to_j[s] = w_s` for `s ∈ L1`, else 0 -/
+theorem crossBetweennessDef_sources (n : Nat) (w : Nat → Rat) (L1 : List Nat) (s : Nat)
+    (hs : s < n) : excess w (srcMask n L1) s = if s ∈ L1 then w s else 0 := by
+  unfold excess
+  rw [srcMask_getD n L1 s hs]
+  simp
+
+/-- the path 0–1–2 with groups `[0]`, `[2]`: one shortest path, through node 1 -/
+example : crossBetweenness 3 (fun a b => a + 1 == b || b + 1 == a) [0] [2] = [0, 1, 0] := by
+  decide +kernel
+example : crossBetweenness 3 (fun a b => a + 1 == b || b + 1 == a) [0] [2]
+    = crossBetweennessDef 3 (fun a b => a + 1 == b || b + 1 == a) (fun _ => 1) [0] [2] := by
+  decide +kernel
+example : nsiCrossBetweenness 3 (fun a b => a + 1 == b || b + 1 == a) (fun i => (i : Rat) + 1)
+    [2, 0] [1, 2] ≠ [0, 0, 0] := by decide +kernel
+
+/-- **the assertion of `Network._nsi_betweenness`** (`k.sum() == len(flat_neighbors) ==
+2 * self.n_links`) holds on every undirected loop-free network (the non-zero entries come in
+mirror pairs) and fails on every directed network with at least one link — the three delegates
+raise `AssertionError` there. -/
+theorem betwAssert_iff (directed : Bool) (A : Adj) (hA : directed = false → Symm A)
+    (hloop : ∀ a, A a a = false) (n : Nat) :
+    betwAssertHolds directed n A = true ↔ (directed = false ∨ netNonzeros n A = 0) := by
+  unfold betwAssertHolds netNLinks
+  cases directed with
+  | false =>
+    have hk := netNonzeros_even A (hA rfl) hloop n
+    generalize netNonzeros n A = z at hk ⊢
+    generalize pairSum (fun a b => b2n (A a b)) (List.range n) = k at hk
+    subst hk
+    simp
+  | true =>
+    simp
+    omega
+
+end Betweenness
+
+/-! ### whole-network limits of the closeness measures under their own conventions -/
+
+/-- **whole-network limit of `internal_closeness`, connected or not**: with `L` any ordering of all
+nodes, entry `i` is `(N − 1) / Σ_j d'_ij` over the whole network with an unreachable node counted
+as `N − 1` (`closenessConv (N − 1)`), `0` where the sum vanishes. -/
+theorem whole_internal_closeness_conv (D : Dist) (n : Nat) (L : List Nat)
+    (h : L.Perm (List.range n)) :
+    internalCloseness D L = L.map (closenessConv ((n : Rat) - 1) n D) := by
+  have hl : L.length = n := by simpa using h.length_eq
+  unfold internalCloseness generalCloseness closenessConv
+  simp only [block, List.map_map, Function.comp_def, hl]
+  apply List.map_congr_left
+  intro a _
+  rw [sum_perm_range h]
+  push_cast
+  by_cases hz : ((List.range n).map fun b => (D a b).getD ((n : Rat) - 1)).sum = 0
+  · simp [hz]
+  · simp [hz]
+
+/-- **whole-network limit of `cross_closeness`**: with both groups = all nodes the cross closeness
+is the internal closeness up to the two normalisations `M = N` and `M − 1 = N − 1` (the sums and
+the convention `N − 1` for unreachable nodes coincide): `(N − 1) · cross_closeness(L, L)[i]
+= N · internal_closeness(L)[i]`, on every network. -/
+theorem whole_cross_closeness (D : Dist) (n : Nat) (L : List Nat) (h : L.Perm (List.range n)) :
+    (crossCloseness n D L L).map (· * ((n : Rat) - 1))
+      = (internalCloseness D L).map (· * (n : Rat)) := by
+  have hl : L.length = n := by simpa using h.length_eq
+  unfold crossCloseness internalCloseness generalCloseness
+  simp only [block, List.map_map, Function.comp_def, hl]
+  apply List.map_congr_left
+  intro a _
+  push_cast
+  split <;> ring
+
+/-- the weighted branch of `Network.closeness` is the closeness with unreachable nodes counted
+as `N` -/
+theorem closenessW_eq_conv (n : Nat) (D : Dist) (i : Nat) :
+    Net.closenessW n D i = closenessConv (n : Rat) n D i := by
+  unfold Net.closenessW closenessConv Net.sumToQ
+  cases n with
+  | zero => simp
+  | succ m => simp only [Nat.add_sub_cancel]; push_cast; simp
+
+/-- on a row without unreachable node the convention does not matter … -/
+theorem closenessConv_congr (c c' : Rat) (n : Nat) (D : Dist) (i : Nat)
+    (hrow : ∀ j, j < n → (D i j).isSome) :
+    closenessConv c n D i = closenessConv c' n D i := by
+  unfold closenessConv
+  have e : ((List.range n).map fun j => (D i j).getD c)
+      = (List.range n).map fun j => (D i j).getD c' := by
+    apply List.map_congr_left
+    intro j hj
+    have := hrow j (List.mem_range.mp hj)
+    cases hd : D i j with
+    | none => simp [hd] at this
+    | some v => rfl
+  rw [e]
+
+/-- … and on a row with an unreachable node it does, strictly: the larger the distance assigned
+to unreachable nodes, the smaller the closeness (non-negative path lengths, `N ≥ 2`). -/
+theorem closenessConv_strict (c c' : Rat) (hc : 0 < c) (hcc : c < c') (n : Nat) (hn : 2 ≤ n)
+    (D : Dist) (i : Nat) (hnn : ∀ j d, D i j = some d → 0 ≤ d)
+    (hu : ∃ j, j < n ∧ D i j = none) :
+    closenessConv c' n D i < closenessConv c n D i := by
+  unfold closenessConv
+  have key : ∀ x : Rat, ((List.range n).map fun j => (D i j).getD x).sum
+      = (finiteOf ((List.range n).map fun j => D i j)).sum
+        + ((((List.range n).map fun j => D i j).filter Option.isNone).length : Rat) * x := by
+    intro x
+    rw [← row_getD_sum, List.map_map]
+    rfl
+  simp only [key]
+  generalize hF : (finiteOf ((List.range n).map fun j => D i j)).sum = F
+  generalize hU : ((((List.range n).map fun j => D i j).filter Option.isNone).length) = u
+  have hF0 : 0 ≤ F := by
+    rw [← hF]
+    apply sum_nonneg_rat
+    intro d hd
+    rw [finiteOf_mem] at hd
+    simp only [List.mem_map] at hd
+    obtain ⟨j, _, hj⟩ := hd
+    exact hnn j d hj
+  have hu1 : 1 ≤ u := by
+    obtain ⟨j, hj, hd⟩ := hu
+    rw [← hU]
+    apply List.length_pos_of_mem (a := none)
+    simp only [List.mem_filter, List.mem_map, List.mem_range, Option.isNone_none, and_true]
+    exact ⟨j, hj, hd⟩
+  have hu1' : (1 : Rat) ≤ (u : Rat) := by exact_mod_cast hu1
+  have hs : 0 < F + (u : Rat) * c := by nlinarith
+  have hs' : F + (u : Rat) * c < F + (u : Rat) * c' := by nlinarith
+  have hn1 : (0 : Rat) < (n : Rat) - 1 := by
+    have : (2 : Rat) ≤ (n : Rat) := by exact_mod_cast hn
+    linarith
+  rw [if_neg (ne_of_gt (lt_trans hs hs')), if_neg (ne_of_gt hs)]
+  exact div_lt_div_of_pos_left hn1 hs hs'
+
+/-- **the whole-network limit of the closeness holds exactly on the rows without unreachable
+node**: `internal_closeness(L)[i] = Network.closeness(link_attribute)[i]` if every node is
+reachable from `i`, and `internal_closeness(L)[i] > Network.closeness(link_attribute)[i]` otherwise
+(the former counts an unreachable node as `N − 1`, the latter as `N`) — `L` any ordering of all
+nodes, `N ≥ 2`, non-negative path lengths. -/
+theorem whole_closeness_rows (D : Dist) (n : Nat) (hn : 2 ≤ n) (L : List Nat)
+    (h : L.Perm (List.range n)) (hnn : ∀ i j d, D i j = some d → 0 ≤ d) :
+    ∃ f : Nat → Rat, internalCloseness D L = L.map f ∧ ∀ i,
+      ((∀ j, j < n → (D i j).isSome) → f i = Net.closenessW n D i) ∧
+      ((∃ j, j < n ∧ D i j = none) → Net.closenessW n D i < f i) := by
+  refine ⟨closenessConv ((n : Rat) - 1) n D, whole_internal_closeness_conv D n L h, ?_⟩
+  intro i
+  have hn2 : (2 : Rat) ≤ (n : Rat) := by exact_mod_cast hn
+  constructor
+  · intro hrow
+    rw [closenessW_eq_conv]
+    exact closenessConv_congr _ _ n D i hrow
+  · intro hu
+    rw [closenessW_eq_conv]
+    exact closenessConv_strict ((n : Rat) - 1) (n : Rat) (by linarith) (by linarith) n hn D i
+      (hnn i) hu
+
+/-- two components {0,1}, {2}: node 0 has closeness `2/(0+1+2) = 2/3` internally and
+`2/(0+1+3) = 1/2` in `Network.closeness` -/
+example : internalCloseness (fun a b => if a = b then some 0 else if a + b = 1 then some 1 else none)
+      [0, 1, 2] = [2 / 3, 2 / 3, 1 / 2]
+    ∧ Net.closenessW 3 (fun a b => if a = b then some 0 else if a + b = 1 then some 1 else none) 0
+      = 1 / 2 := by decide +kernel
+
+/-- **closeness of a node against the rest of the network**: `cross_closeness([i], all other
+nodes)` is the whole-network closeness of `i` (unreachable nodes counted as `N − 1`), i.e. entry
+`i` of `internal_closeness(all nodes)` — and therefore `Network.closeness(link_attribute)[i]`
+whenever every node is reachable from `i`. -/
+theorem singleton_cross_closeness (n : Nat) (D : Dist) (i : Nat) (hi : i < n)
+    (hdiag : D i i = some 0) :
+    crossCloseness n D [i] (others n i) = [closenessConv ((n : Rat) - 1) n D i] := by
+  unfold crossCloseness generalCloseness closenessConv
+  simp only [block, List.map_cons, List.map_nil, List.map_map, Function.comp_def]
+  have hs := sum_others n i hi (fun j => (D i j).getD ((n : Rat) - 1))
+  simp only [hdiag, Option.getD_some, add_zero] at hs
+  have hl : ((others n i).length : Rat) = (n : Rat) - 1 := by
+    have := others_length n i hi
+    have h2 : (((others n i).length + 1 : Nat) : Rat) = (n : Rat) := by exact_mod_cast this
+    push_cast at h2
+    linarith
+  push_cast
+  rw [hs]
+  by_cases hz : ((List.range n).map fun j => (D i j).getD ((n : Rat) - 1)).sum = 0
+  · simp [hz]
+  · simp [hz, hl]
+
+example : crossCloseness 3 (fun a b => if a = b then some 0 else some 2) [1] (others 3 1) = [1 / 2]
+    ∧ others 3 1 = [0, 2] := by decide +kernel
+
+
+/-! ### efficiency: the degenerate limit and the decomposition that does hold -/
+
+/-- **both groups = all nodes is a degenerate limit of the efficiencies**: the diagonal of the
+path-length block is zero, `1/0 = inf` enters every row mean, so every `local_efficiency(L, L)`
+is `inf` and `global_efficiency(L, L) = 1/inf = 0` — on every network with at least one node
+(`Network.global_efficiency` excludes the diagonal instead; the relation that does hold is
+`whole_global_efficiency_as_mean_local`). -/
+theorem whole_efficiency_degenerate (D : Dist) (n : Nat) (hn : 1 ≤ n) (L : List Nat)
+    (h : L.Perm (List.range n)) (hdiag : ∀ i, i < n → D i i = some 0) :
+    localEfficiency D L L = none ∧ globalEfficiency D L L = .val 0 := by
+  have hl : L.length = n := by simpa using h.length_eq
+  have h0 : 0 ∈ L := h.mem_iff.mpr (List.mem_range.mpr (by omega))
+  have hany : ((block D L L).any fun r => r.any (· == some 0)) = true := by
+    rw [List.any_eq_true]
+    refine ⟨L.map fun b => D 0 b, ?_, ?_⟩
+    · simp only [block, List.mem_map]
+      exact ⟨0, h0, rfl⟩
+    · rw [List.any_eq_true]
+      refine ⟨D 0 0, ?_, ?_⟩
+      · simp only [List.mem_map]
+        exact ⟨0, h0, rfl⟩
+      · simp [hdiag 0 (by omega)]
+  have hle : localEfficiency D L L = none := by
+    unfold localEfficiency
+    simp [hany]
+  refine ⟨hle, ?_⟩
+  unfold globalEfficiency
+  rw [hle]
+  have : L.length ≠ 0 := by omega
+  simp [this]
+
+example : globalEfficiency (fun a b => if a = b then some 0 else some 1) [1, 0] [1, 0] = .val 0 := by
+  decide +kernel
+
+/-- local efficiency of node `i` against all other nodes -/
+def effRest (n : Nat) (D : Dist) (i : Nat) : Rat :=
+  ((List.range n).map fun j => if i = j then 0 else invD (D i j)).sum / ((n : Rat) - 1)
+
+/-- `local_efficiency([i], all other nodes)` is the mean of `1/d_ij` over `j ≠ i` -/
+theorem singleton_local_efficiency (n : Nat) (hn : 2 ≤ n) (D : Dist) (i : Nat) (hi : i < n)
+    (hpos : ∀ j, j < n → i ≠ j → D i j ≠ some 0) :
+    localEfficiency D [i] (others n i) = some [effRest n D i] := by
+  have hlen := others_length n i hi
+  have hl : ((others n i).length : Rat) = (n : Rat) - 1 := by
+    have h2 : (((others n i).length + 1 : Nat) : Rat) = (n : Rat) := by exact_mod_cast hlen
+    push_cast at h2
+    linarith
+  have hl0 : (others n i).length ≠ 0 := by omega
+  have hany : ((block D [i] (others n i)).any fun r => r.any (· == some 0)) = false := by
+    simp only [block, List.map_cons, List.map_nil, List.any_cons, List.any_nil, Bool.or_false,
+      List.any_map, List.any_eq_false, Function.comp_def]
+    intro j hj
+    obtain ⟨hjn, hji⟩ := (mem_others n i j).mp hj
+    simpa using hpos j hjn (fun e => hji e.symm)
+  unfold localEfficiency effRest
+  simp only [hl0, hany, false_or, Bool.false_eq_true, if_false]
+  simp only [block, List.map_cons, List.map_nil, List.map_map, Function.comp_def, hl]
+  rw [sum_others_ite n i hi (fun j => invD (D i j))]
+
+/-- **whole-network relation of the efficiencies**: `Network.global_efficiency(link_attribute)` is
+the mean over all nodes `i` of `local_efficiency([i], all other nodes)[0]` — for every network
+with `N ≥ 2` and no zero distance between different nodes. -/
+theorem whole_global_efficiency_as_mean_local (n : Nat) (hn : 2 ≤ n) (D : Dist)
+    (hpos : ∀ i j, i < n → j < n → i ≠ j → D i j ≠ some 0) :
+    (∀ i, i < n → localEfficiency D [i] (others n i) = some [effRest n D i])
+      ∧ netGlobalEfficiency n D
+          = some (.val (((List.range n).map (effRest n D)).sum / (n : Rat))) := by
+  refine ⟨fun i hi => singleton_local_efficiency n hn D i hi (fun j hj hij => hpos i j hi hj hij), ?_⟩
+  have hnn : n * (n - 1) ≠ 0 := by
+    have : 1 ≤ n - 1 := by omega
+    exact Nat.mul_ne_zero (by omega) (by omega)
+  have hany : ((List.range n).any fun i => (List.range n).any fun j => i != j && D i j == some 0)
+      = false := by
+    rw [List.any_eq_false]
+    intro i hi
+    rw [List.any_eq_true]
+    rintro ⟨j, hj, hc⟩
+    simp only [Bool.and_eq_true, bne_iff_ne, ne_eq, beq_iff_eq] at hc
+    exact hpos i j (List.mem_range.mp hi) (List.mem_range.mp hj) hc.1 hc.2
+  unfold netGlobalEfficiency
+  simp only [hnn, hany, if_false, Bool.false_eq_true]
+  congr 2
+  unfold effRest
+  rw [sum_div_const]
+  have h1 : ((n * (n - 1) : Nat) : Rat) = (n : Rat) * ((n : Rat) - 1) := by
+    have : 1 ≤ n := by omega
+    rw [Nat.cast_mul, Nat.cast_sub this]; push_cast; ring
+  have hn0 : (n : Rat) ≠ 0 := by
+    have : (2 : Rat) ≤ (n : Rat) := by exact_mod_cast hn
+    intro e; linarith
+  have hn1 : (n : Rat) - 1 ≠ 0 := by
+    have : (2 : Rat) ≤ (n : Rat) := by exact_mod_cast hn
+    intro e; linarith
+  rw [h1]
+  field_simp
+
+example : netGlobalEfficiency 3 (fun a b => if a = b then some 0 else some 2) = some (.val (1 / 2))
+    ∧ localEfficiency (fun a b => if a = b then some 0 else some 2) [1] (others 3 1) = some [1 / 2] := by
+  decide +kernel
+
+
+/-! ### n.s.i. limits on networks that are not connected -/
+
+/-- **whole-network form of the n.s.i. closeness, connected or not**: with `L` any ordering of all
+nodes, entry `i` of `nsi_cross_closeness_centrality(L, L)` is `W / Σ_j w_j d*_ij` over the whole
+network, an unreachable node counted as `N − 1`. -/
+theorem whole_nsi_closeness_conv (D : Dist) (w : Nat → Rat) (n : Nat) (L : List Nat)
+    (h : L.Perm (List.range n)) :
+    nsiCrossCloseness n D w L L = L.map fun a =>
+      let s := ((List.range n).map fun b => nsiDist n D a b * w b).sum
+      if s = 0 then none else some (((List.range n).map w).sum / s) := by
+  unfold nsiCrossCloseness wsum
+  apply List.map_congr_left
+  intro a _
+  simp only [sum_perm_range h]
+
+/-- **the whole-network limit of the n.s.i. closeness holds exactly on the rows without
+unreachable node** (row-wise strengthening of `whole_nsi_closeness`; on directed networks single
+rows can be complete without the network being strongly connected). -/
+theorem whole_nsi_closeness_row (D : Dist) (w : Nat → Rat) (n : Nat) (L : List Nat)
+    (h : L.Perm (List.range n)) (i : Nat) (hi : i < L.length)
+    (hrow : ∀ j, j < n → (D L[i] j).isSome) :
+    (nsiCrossCloseness n D w L L)[i]? = some (netNsiCloseness n D w L[i]) := by
+  rw [whole_nsi_closeness_conv D w n L h]
+  simp only [List.getElem?_map, List.getElem?_eq_getElem hi, Option.map_some]
+  congr 1
+  generalize L[i] = a at hrow
+  unfold netNsiCloseness
+  have hany : ((List.range n).any fun j => (D a j).isNone) = false := by
+    rw [List.any_eq_false]
+    intro j hj
+    have := hrow j (List.mem_range.mp hj)
+    cases hd : D a j with
+    | none => simp [hd] at this
+    | some v => simp
+  simp only [hany, Bool.false_eq_true, if_false]
+  have hs : ((List.range n).map fun b => nsiDist n D a b * w b)
+      = (List.range n).map fun j => ((D a j).getD 0 + (if a = j then 1 else 0)) * w j := by
+    apply List.map_congr_left
+    intro j hj
+    have := hrow j (List.mem_range.mp hj)
+    unfold nsiDist
+    cases hd : D a j with
+    | none => simp [hd] at this
+    | some v => simp
+  rw [hs]
+
+/-- … and fails on every other row: `Network.nsi_closeness` is `0` there (`inf` in the dot
+product), the cross measure is positive (`N − 1` for the unreachable nodes) — positive node
+weights, non-negative path lengths, `N ≥ 2`. -/
+theorem whole_nsi_closeness_disconnected (D : Dist) (w : Nat → Rat) (hw : ∀ j, 0 < w j) (n : Nat)
+    (hn : 2 ≤ n) (a : Nat) (hnn : ∀ j d, D a j = some d → 0 ≤ d)
+    (hu : ∃ j, j < n ∧ D a j = none) :
+    netNsiCloseness n D w a = some 0
+      ∧ ∃ x : Rat, 0 < x ∧
+        (let s := ((List.range n).map fun b => nsiDist n D a b * w b).sum
+         if s = 0 then none else some (((List.range n).map w).sum / s)) = some x := by
+  obtain ⟨j, hj, hd⟩ := hu
+  constructor
+  · unfold netNsiCloseness
+    have hany : ((List.range n).any fun j => (D a j).isNone) = true := by
+      rw [List.any_eq_true]
+      exact ⟨j, List.mem_range.mpr hj, by simp [hd]⟩
+    simp [hany]
+  · have hn2 : (2 : Rat) ≤ (n : Rat) := by exact_mod_cast hn
+    have hterm : ∀ b, 0 ≤ nsiDist n D a b * w b := by
+      intro b
+      apply mul_nonneg _ (le_of_lt (hw b))
+      unfold nsiDist
+      cases hb : D a b with
+      | none => push_cast; linarith
+      | some d =>
+        have := hnn b d hb
+        simp only []
+        split <;> linarith
+    have hj' : 0 < nsiDist n D a j * w j := by
+      apply mul_pos _ (hw j)
+      unfold nsiDist
+      rw [hd]
+      push_cast; linarith
+    have hs : 0 < ((List.range n).map fun b => nsiDist n D a b * w b).sum := by
+      have hmem : nsiDist n D a j * w j ∈ (List.range n).map fun b => nsiDist n D a b * w b :=
+        List.mem_map.mpr ⟨j, List.mem_range.mpr hj, rfl⟩
+      have hle := List.single_le_sum (l := (List.range n).map fun b => nsiDist n D a b * w b)
+        (by
+          intro x hx
+          obtain ⟨b, _, rfl⟩ := List.mem_map.mp hx
+          exact hterm b) _ hmem
+      linarith
+    have hW : 0 < ((List.range n).map w).sum := by
+      have hmem : w 0 ∈ (List.range n).map w := List.mem_map.mpr ⟨0, List.mem_range.mpr (by omega), rfl⟩
+      have hle := List.single_le_sum (l := (List.range n).map w)
+        (by
+          intro x hx
+          obtain ⟨b, _, rfl⟩ := List.mem_map.mp hx
+          exact le_of_lt (hw b)) _ hmem
+      have := hw 0
+      linarith
+    refine ⟨((List.range n).map w).sum / ((List.range n).map fun b => nsiDist n D a b * w b).sum,
+      div_pos hW hs, ?_⟩
+    simp only [if_neg (ne_of_gt hs)]
+
+/-- **what `nsi_cross_average_path_length(L, L)` computes on a whole network that is not
+connected** (the known finding `C11-nsi-cross-apl-unreachable`, exactly): with `U` the set of
+unreachable ordered pairs, numerator and denominator are those of
+`Network.nsi_average_path_length()` plus `(N − 1) · Σ_U w_a w_b` and
+`Σ_U (w_a w_b − w_a − w_b)` respectively — so the two methods agree whenever `U` is empty
+(`whole_nsi_average_path_length`) and in general not otherwise. -/
+theorem whole_nsi_apl_parts (D : Dist) (w : Nat → Rat) (n : Nat) (L : List Nat)
+    (h : L.Perm (List.range n)) :
+    let R := List.range n
+    let U2 := (R.map fun a => (R.map fun b => if (D a b).isNone then w a * w b else 0).sum).sum
+    let U1 := (R.map fun a => (R.map fun b => if (D a b).isNone then w a + w b else 0).sum).sum
+    let num := (R.map fun i => w i * (R.map fun j => nsiDistZ D i j * w j).sum).sum
+    let den := (R.map fun i => (R.map fun j => if (D i j).isNone then 0 else w i * w j).sum).sum
+    nsiCrossAPLParts n D w L L = (num + (((n : Int) - 1 : Int) : Rat) * U2, den + U2 - U1) := by
+  intro R U2 U1 num den
+  unfold nsiCrossAPLParts
+  simp only [wsum, sum_perm_range h]
+  have hnum : ((List.range n).map fun a =>
+        ((List.range n).map fun b => nsiDist n D a b * w b).sum * w a).sum
+      = num + (((n : Int) - 1 : Int) : Rat) * U2 := by
+    have e1 : ((List.range n).map fun a =>
+          ((List.range n).map fun b => nsiDist n D a b * w b).sum * w a).sum
+        = ((List.range n).map fun a => ((List.range n).map fun b =>
+            (w a * (nsiDistZ D a b * w b))
+              + (((n : Int) - 1 : Int) : Rat) * (if (D a b).isNone then w a * w b else 0)).sum).sum := by
+      congr 1
+      apply List.map_congr_left
+      intro a _
+      rw [mul_comm, ← sum_map_mul_left_rat]
+      congr 1
+      apply List.map_congr_left
+      intro b _
+      unfold nsiDist nsiDistZ
+      cases D a b <;> simp; ring
+    rw [e1, dsum_add, dsum_mul_left]
+    congr 1
+    apply congrArg List.sum
+    apply List.map_congr_left
+    intro a _
+    rw [sum_map_mul_left_rat]
+  have hden : ((List.range n).map w).sum * ((List.range n).map w).sum - U1 = den + U2 - U1 := by
+    congr 1
+    rw [sum_mul_sum]
+    show _ = den + U2
+    rw [← dsum_add]
+    apply dsum_congr
+    intro a b
+    cases (D a b).isNone <;> simp
+  rw [hnum, hden]
+
+/-- two isolated nodes of weights 1 and 2: `Network.nsi_average_path_length` = (1 + 4)/(1 + 4) = 1,
+the cross method gives (5 + 1·4) / (5 + 4 − 6) = 3 -/
+example : nsiCrossAPL 2 (fun a b => if a = b then some 0 else none) (fun i => (i : Rat) + 1) [0, 1] [0, 1]
+      = some 3
+    ∧ netNsiAPL 2 (fun a b => if a = b then some 0 else none) (fun i => (i : Rat) + 1) = some 1 := by
+  decide +kernel
+
+/-! ### numpy's integer accumulation -/
+
+/-- **accumulating a row sum in a signed integer type is exact while the sum fits**: every
+partial sum of non-negative entries is `≤` the total, so no `wrap` is ever active -/
+theorem sumW_exact (m : Int) (l : List Int) (h0 : ∀ x ∈ l, 0 ≤ x) (hs : l.sum < m) :
+    sumW m l = l.sum := by
+  unfold sumW
+  rw [foldl_wrap_exact m l 0 (le_refl 0) h0 (by omega)]
+  omega
+
+/-- **`cross_outdegree` (row sums of the `int8` block) in numpy's default accumulator**: `np.sum`
+of an `int8`/`int16` array accumulates in the platform integer (64 bits: range `[-2^63, 2^63)`),
+where the sum of a 0/1 row of fewer than `2^63` entries is exact — the model's `Nat` row sums are
+what the code returns. -/
+theorem crossOutDegree_int64_accumulation (A : Adj) (L1 L2 : List Nat)
+    (h2 : (L2.length : Int) < 2 ^ 63) :
+    crossOutDegreeW (2 ^ 63) A L1 L2 = (crossOutDegree A L1 L2).map fun (k : Nat) => (k : Int) := by
+  unfold crossOutDegreeW crossOutDegree rowSums blockN block
+  simp only [List.map_map, Function.comp_def]
+  apply List.map_congr_left
+  intro a _
+  have hcast' : ∀ M : List Nat, ((M.map fun b => ((b2n (A a b) : Nat) : Int)).sum)
+      = (((M.map fun b => b2n (A a b)).sum : Nat) : Int) := by
+    intro M
+    induction M with
+    | nil => simp
+    | cons b t ih => simp only [List.map_cons, List.sum_cons]; push_cast; rw [ih]
+  have hcast := hcast' L2
+  rw [sumW_exact]
+  · exact hcast
+  · intro x hx
+    obtain ⟨b, _, rfl⟩ := List.mem_map.mp hx
+    exact Int.natCast_nonneg _
+  · rw [hcast]
+    have := sum_b2n_le (fun b => A a b) L2
+    omega
+
+/-- … whereas an `int8` accumulator (`np.sum(…, dtype=np.int8)`, or a block that is summed by
+hand in its own dtype) wraps from a cross degree of 128 on -/
+theorem crossOutDegree_int8_accumulation_wraps :
+    crossOutDegreeW (2 ^ 7) (fun _ _ => true) [0] (List.range' 1 127) = [127]
+      ∧ crossOutDegreeW (2 ^ 7) (fun _ _ => true) [0] (List.range' 1 128) = [-128] := by
+  decide +kernel
+
+example : sumW (2 ^ 15) (List.replicate 300 127) = List.foldl (fun acc x => wrap (2 ^ 15) (acc + x)) 0
+    (List.replicate 300 127) := rfl
+
+/-! ### the delegation chain of the betweenness measures in the current source
+(`Generated/StructC11.lean`, round 4) -/
+
+open Pyunicorn.Generated in
+/-- **about the regenerated table of pure delegates**: `cross_betweenness(L1, L2)`,
+`internal_betweenness(L)` and `nsi_cross_betweenness(L1, L2)` only return
+`interregional_betweenness(sources=L1, targets=L2)` / `(sources=L, targets=L)` /
+`nsi_interregional_betweenness(sources=L1, targets=L2)`, which only return
+`nsi_betweenness(sources, targets[, nsi=False])` — the argument routing of `crossBetweenness`,
+`internalBetweenness`, `nsiCrossBetweenness`; likewise `nsi_internal_* (L) = nsi_cross_* (L, L)`. -/
+theorem betweenness_delegates_as_modelled :
+    StructC11.delegates.filter (fun d => d.func ∈ ["cross_betweenness", "internal_betweenness",
+        "nsi_cross_betweenness", "Network.interregional_betweenness",
+        "Network.nsi_interregional_betweenness", "nsi_internal_degree",
+        "nsi_internal_closeness_centrality", "nsi_internal_local_clustering"])
+      = [⟨"cross_betweenness", "self.interregional_betweenness",
+            ["sources=node_list1", "targets=node_list2"]⟩,
+         ⟨"internal_betweenness", "self.interregional_betweenness",
+            ["sources=node_list", "targets=node_list"]⟩,
+         ⟨"nsi_internal_degree", "self.nsi_cross_degree", ["node_list", "node_list"]⟩,
+         ⟨"nsi_internal_closeness_centrality", "self.nsi_cross_closeness_centrality",
+            ["node_list", "node_list"]⟩,
+         ⟨"nsi_internal_local_clustering", "self.nsi_cross_local_clustering",
+            ["node_list", "node_list"]⟩,
+         ⟨"nsi_cross_betweenness", "self.nsi_interregional_betweenness",
+            ["sources=node_list1", "targets=node_list2"]⟩,
+         ⟨"Network.interregional_betweenness", "self.nsi_betweenness",
+            ["sources=sources", "targets=targets", "nsi=False"]⟩,
+         ⟨"Network.nsi_interregional_betweenness", "self.nsi_betweenness",
+            ["sources=sources", "targets=targets"]⟩] := by
+  decide +kernel
+
+open Pyunicorn.Generated in
+/-- **about the regenerated statements of `Network.nsi_betweenness` / `_nsi_betweenness`**: the
+mask starts as zeros and gets one store `is_source[sources] = 1` (default: all nodes) —
+`srcMask`, `srcMaskAll`; the targets keep the caller's order (default `arange(N)`); the weights
+are replaced by ones unless `nsi`; `k = outdegree`, `flat_neighbors` = column indices of the
+non-zero coordinates; the guard `k.sum() == len(flat_neighbors) == 2 * n_links`
+(`betwAssertHolds`); the serial branch calls the kernel once on all targets and the result is
+divided by `w` (`NetBetw.nsiBetweenness`). -/
+theorem betweenness_wrapper_as_modelled :
+    StructC11.betwFacts = [
+      ("nsi_betweenness.signature", "self, sources, targets, nsi, parallelize, default:None, default:None, default:True, default:False"),
+      ("nsi_betweenness.is_source", "np.zeros(self.N, dtype=MASK)"),
+      ("nsi_betweenness.return", "self._nsi_betweenness(tuple(is_source), tuple(targets), nsi, parallelize)"),
+      ("nsi_betweenness.is_source[sources]", "1"),
+      ("nsi_betweenness.is_source[range(0, self.N)]", "1"),
+      ("nsi_betweenness.targets", "np.array(list(map(int, targets)))"),
+      ("nsi_betweenness.targets", "np.arange(0, self.N)"),
+      ("_nsi_betweenness.k", "to_cy(self.outdegree(), DEGREE)"),
+      ("_nsi_betweenness.w", "to_cy(self.node_weights, DWEIGHT)"),
+      ("_nsi_betweenness.w", "w if nsi else np.ones_like(w)"),
+      ("_nsi_betweenness.links", "nz_coords(self.sp_A)"),
+      ("_nsi_betweenness.flat_neighbors", "to_cy(np.array(links)[:, 1], NODE)"),
+      ("_nsi_betweenness.assert", "k.sum() == len(flat_neighbors) == 2 * self.n_links"),
+      ("_nsi_betweenness.worker", "partial(_nsi_betweenness, self.N, w, k, flat_neighbors, is_source)"),
+      ("_nsi_betweenness.return", "betw_w / w"),
+      ("_nsi_betweenness.betw_w", "worker(targets)")] := by
+  decide +kernel
+
+open Pyunicorn.Generated in
+/-- `Network.closeness(link_attribute)` and `Network.global_efficiency` **as regenerated from the
+current source**: unreachable nodes count as `self.N`, the closeness is `(self.N − 1) / rowsum`
+(`closenessConv N`, `Net.closenessW`), the efficiency is `1/float(N·(N−1)) · Σ 1/d`
+(`netGlobalEfficiency`). -/
+theorem arith_net_closeness_efficiency (n : Nat) (D : Dist) (i : Nat)
+    (hs : ((List.range n).map fun j => (D i j).getD (n : Rat)).sum ≠ 0)
+    (hn : n * (n - 1) ≠ 0)
+    (hz : ((List.range n).any fun i => (List.range n).any fun j => i != j && D i j == some 0) = false) :
+    closenessConv ((ArithC11.netClosenessUnreachable n : Int) : Rat) n D i
+        = ArithC11.netClosenessExpr n
+            ((List.range n).map fun j => (D i j).getD ((ArithC11.netClosenessUnreachable n : Int) : Rat)).sum
+      ∧ netGlobalEfficiency n D = some (.val (ArithC11.netGlobalEfficiencyExpr n
+          ((List.range n).map fun i =>
+            ((List.range n).map fun j => if i = j then 0 else invD (D i j)).sum).sum)) := by
+  constructor
+  · unfold closenessConv ArithC11.netClosenessExpr ArithC11.netClosenessUnreachable
+    simp only [Int.cast_natCast]
+    rw [if_neg hs]
+    push_cast
+    rfl
+  · unfold netGlobalEfficiency ArithC11.netGlobalEfficiencyExpr
+    simp only [hn, hz, if_false, Bool.false_eq_true]
+    congr 3
+    have h1 : 1 ≤ n := by
+      rcases n with _ | m
+      · simp at hn
+      · omega
+    rw [Nat.cast_mul, Nat.cast_sub h1]
+    push_cast
+    ring
+
+section Unweighted
+open Pyunicorn.Net
+/-! ### unweighted path lengths: the hypotheses on the distance matrix as theorems
+(`distQ` = C03's BFS model of `Network.path_lengths()`) -/
+
+/-- **the unweighted path-length matrix satisfies every side condition the path-measure theorems
+carry**: zero diagonal (`internalAPL_eq_mean_offdiag`, `singleton_cross_closeness`,
+`whole_efficiency_degenerate`), non-negative entries (`whole_closeness_rows`,
+`whole_nsi_closeness_disconnected`), no zero distance between different nodes
+(`localEfficiency_eq_def`, `globalEfficiency_eq_harmonic`, `whole_global_efficiency_as_mean_local`),
+every finite distance `≤ N − 1` — the value `cross_closeness` assigns to unreachable nodes really is
+"the maximum possible path length" — and, on undirected networks, symmetry (`crossAPL_symm`,
+`globalEfficiency_symm`, `block_swap`). -/
+theorem unweighted_path_lengths (n : Nat) (A : Adj) :
+    (∀ i, i < n → distQ n A i i = some 0)
+      ∧ (∀ i j d, distQ n A i j = some d → 0 ≤ d)
+      ∧ (∀ i j, i ≠ j → distQ n A i j ≠ some 0)
+      ∧ (∀ i j d, distQ n A i j = some d → d ≤ (n : Rat) - 1)
+      ∧ (Symm A → Symm (distQ n A)) := by
+  refine ⟨?_, ?_, ?_, ?_, ?_⟩
+  · intro i hi
+    simp [distQ, hi, DistL.dist_self n A i hi]
+  · intro i j d h
+    unfold distQ at h
+    split at h
+    · cases hd : dist n A i j with
+      | none => simp [hd] at h
+      | some k =>
+        simp only [hd, Option.map_some, Option.some.injEq] at h
+        rw [← h]; exact Nat.cast_nonneg k
+    · simp at h
+  · intro i j hij h
+    unfold distQ at h
+    split at h
+    · rename_i hb
+      cases hd : dist n A i j with
+      | none => simp [hd] at h
+      | some k =>
+        simp only [hd, Option.map_some, Option.some.injEq] at h
+        have hk : k = 0 := by exact_mod_cast h
+        subst hk
+        have hw := ((DistL.dist_some_iff n A i j 0 hb.1 hb.2).mp hd).1
+        cases hw
+        exact hij rfl
+    · simp at h
+  · intro i j d h
+    unfold distQ at h
+    split at h
+    · rename_i hb
+      cases hd : dist n A i j with
+      | none => simp [hd] at h
+      | some k =>
+        simp only [hd, Option.map_some, Option.some.injEq] at h
+        have hlt := DistL.dist_lt n A i j k hb.1 hb.2 hd
+        rw [← h]
+        have : ((k + 1 : Nat) : Rat) ≤ (n : Rat) := by exact_mod_cast hlt
+        push_cast at this
+        linarith
+    · simp at h
+  · intro hA i j
+    unfold distQ
+    by_cases hb : i < n ∧ j < n
+    · rw [if_pos hb, if_pos ⟨hb.2, hb.1⟩, dist_symm n A hA i j hb.1 hb.2]
+    · have hb' : ¬ (j < n ∧ i < n) := fun h => hb ⟨h.2, h.1⟩
+      rw [if_neg hb, if_neg hb']
+
+/-- **`cross_average_path_length` and `global_efficiency` are symmetric in the groups on every
+undirected unweighted network** — no hypothesis on the path-length matrix left -/
+theorem unweighted_symmetric_in_groups (n : Nat) (A : Adj) (hA : Symm A) (L1 L2 : List Nat)
+    (h1 : L1 ≠ []) (h2 : L2 ≠ []) :
+    crossAPL (distQ n A) L1 L2 = crossAPL (distQ n A) L2 L1
+      ∧ globalEfficiency (distQ n A) L1 L2 = globalEfficiency (distQ n A) L2 L1 :=
+  ⟨crossAPL_symm _ ((unweighted_path_lengths n A).2.2.2.2 hA) L1 L2,
+   globalEfficiency_symm _ ((unweighted_path_lengths n A).2.2.2.2 hA) L1 L2 h1 h2⟩
+
+/-- **`Network.global_efficiency()` of every unweighted network with `N ≥ 2` is the mean over the
+nodes `i` of `local_efficiency([i], all other nodes)`**, and **`internal_closeness(all nodes)`
+agrees with `Network.closeness` exactly on the rows without unreachable node** — the whole-network
+relations with their hypotheses discharged for `path_lengths()`. -/
+theorem unweighted_whole_network (n : Nat) (hn : 2 ≤ n) (A : Adj) (L : List Nat)
+    (h : L.Perm (List.range n)) :
+    netGlobalEfficiency n (distQ n A)
+        = some (.val (((List.range n).map (effRest n (distQ n A))).sum / (n : Rat)))
+      ∧ (localEfficiency (distQ n A) L L = none ∧ globalEfficiency (distQ n A) L L = .val 0)
+      ∧ ∃ f : Nat → Rat, internalCloseness (distQ n A) L = L.map f ∧ ∀ i,
+          ((∀ j, j < n → (distQ n A i j).isSome) → f i = Net.closenessW n (distQ n A) i) ∧
+          ((∃ j, j < n ∧ distQ n A i j = none) → Net.closenessW n (distQ n A) i < f i) := by
+  obtain ⟨hdiag, hnn, hpos, _, _⟩ := unweighted_path_lengths n A
+  exact ⟨(whole_global_efficiency_as_mean_local n hn _ fun i j _ _ hij => hpos i j hij).2,
+    whole_efficiency_degenerate _ n (by omega) L h hdiag,
+    whole_closeness_rows _ n hn L h hnn⟩
+
+/-- path 0–1–2 and an isolated node 3 -/
+example : (block (distQ 4 (fun a b => a + 1 == b && b < 3 || b + 1 == a && a < 3)) [0, 3] [2, 3])
+    = [[some 2, none], [none, some 0]] := by decide +kernel
+
+end Unweighted
 
 end Pyunicorn.Cross
